@@ -47,10 +47,40 @@ def seeded():
   return out
 
 
+def checks():
+  import importlib
+  import sys
+
+  sys.path.insert(0, V)
+  out = ["### 9.5 Checks as built (from the modules and the committed quick-tier evidence)", ""]
+  out += ["| id | deciding oracle (module docstring) | quick: cases / distinct / observations / wall | open known findings |", "|---|---|---|---|"]
+  known = {}
+  for l in open(os.path.join(V, "known_findings.jsonl")):
+    if l.strip():
+      e = json.loads(l)
+      if e["status"] == "open":
+        known[e["property"]] = known.get(e["property"], 0) + 1
+  for i in range(1, 41):
+    pid = f"C{i:02d}"
+    try:
+      mod = importlib.import_module(f"mon.props.{pid}")
+      doc = " ".join((mod.__doc__ or "").split())[:420].replace("|", "/")
+    except Exception as e:  # noqa
+      doc = f"(module import failed: {e})"
+    ev = os.path.join(V, "evidence", f"{pid}.json")
+    cov = "no evidence committed"
+    if os.path.exists(ev):
+      j = json.load(open(ev))
+      c = j["coverage"]
+      cov = f"{c.get('evaluations')} / {c.get('distinct_nontrivial')} / {c.get('monitor_observations')} / {j.get('wall_s')} s (seed {j.get('seed')})"
+    out.append(f"| {pid} | {doc} | {cov} | {known.get(pid, 0)} |")
+  return out
+
+
 def main():
   p = os.path.join(V, "DESIGN.md")
   s = open(p).read()
-  block = "\n".join([BEGIN, ""] + findings() + [""] + seeded() + ["", END])
+  block = "\n".join([BEGIN, ""] + findings() + [""] + seeded() + [""] + checks() + ["", END])
   if BEGIN in s:
     s = s[: s.index(BEGIN)] + block + s[s.index(END) + len(END) :]
   else:
